@@ -458,6 +458,9 @@ def check_C01(tier):
         n = x["case"].partition("@")[0]
         samples.append({"case": x["case"], "source_steps": x["steps"], "stdout": x["expected"][:200], "exit_status": x["expstatus"],
                         "source": (meta.get(n, {}).get("src") or "")[:500]})
+    sviols, scases, sr = check_surface(work, nat, tier)
+    viols += sviols
+    stats["surface-syntax-cases"] = scases
     log("[C01] %s" % dict(stats))
     new = triage("C01", viols)
     write_evidence("C01", tier, "translation_validation",
@@ -465,10 +468,86 @@ def check_C01(tier):
                     "states": r["distinct"], "transitions": r["states"], "outcomes": dict(stats),
                     "rule": "generated well-typed Fun programs (effects in sequenced positions) + repository examples; real pipeline to "
                             "x86-64 text, GNU as, the repository's C driver and io.c, a real process; stdout bytes and exit status "
-                            "compared inside TLC with RenderOut/ExitStatus of spec/Runtime.tla applied to the run of spec/FunMachine.tla"},
+                            "compared inside TLC with RenderOut/ExitStatus of spec/Runtime.tla applied to the run of spec/FunMachine.tla; "
+                            "surface syntax: every spelling of every comparison (two operands, fused zero tests on either side, literals, "
+                            "tight spacing) and arithmetic operator compiled, run natively and judged by spec/Surface.tla from the "
+                            "operand values the spelling denotes (independent of the implementation's parser)"},
                    time.time() - t0, len(viols),
                    assumptions=["NASM->GAS transliteration (lib/native.py) only touches syntax", "spec/FunMachine.tla is the source semantics (validated on the repository's expected outputs)"])
     return 1 if new else 0
+
+
+def surface_family():
+    """-> list of (program name, source, [arg tuples], [(op, left, right, text)]) : one println per entry; left/right are "n", "m"
+    or an integer: the operand *values* follow from the spelling the driver wrote, not from anybody's parser"""
+    cmp_ops, ar_ops, dv_ops = ["==", "!=", "<", "<=", ">", ">="], ["+", "-", "*"], ["/", "%"]
+    def sp(l, op, r, tight=False):
+        return ("%s%s%s" if tight else "%s %s %s") % (l, op, r)
+    def entries(ops, lits):
+        out = []
+        for op in ops:
+            forms = [("n", "m", sp("n", op, "m")), ("m", "n", sp("m", op, "n")), ("n", "n", sp("n", op, "n"))]
+            for k in lits:
+                ks = str(k) if k >= 0 else "-%d" % -k
+                forms += [("n", k, sp("n", op, ks)), (k, "n", sp(ks, op, "n"))]
+                if k == 0:
+                    forms += [("n", 0, sp("n", op, "0", True)), (0, "n", sp("0", op, "n", True)), ("n", 0, sp("n", op, "(0)")), (0, "n", sp("(0)", op, "n")),
+                              ("m", 0, "m  %s  0" % op), (0, "m", "0  %s  m" % op)]
+            out += [(op, l, r, t) for l, r, t in forms]
+        return out
+    progs = []
+    tuples = [[-3, 5], [5, -3], [0, 0], [7, 7], [0, 1], [1, 0], [-1, -1], [9223372036854775807, -9223372036854775808], [-9223372036854775808, 1]]
+    nz = [[-7, 2], [7, -2], [-7, -2], [7, 2], [1, 9223372036854775807], [-9223372036854775808, 3], [100, 7]]
+    for name, ents, tl, wrap in (("cmp", entries(cmp_ops, [0, 7, -7]), tuples, "if %s { 1 } else { 0 }"),
+                                 ("arith", entries(ar_ops, [0, 3, -3, 4294967296]), tuples, "%s"),
+                                 ("divrem", [e for e in entries(dv_ops, [3, -3, 2]) if e[2] != 0], nz, "%s")):
+        for ci in range(0, len(ents), 24):
+            chunk = ents[ci:ci + 24]
+            body = "".join("println_i64(%s); " % (wrap % t) for _, _, _, t in chunk)
+            progs.append(("surf_%s_%d" % (name, ci // 24), "def main(n: i64, m: i64): i64 { %s0 }\n" % body, tl, chunk))
+    return progs
+
+
+def check_surface(work, nat, tier):
+    """C01, surface syntax: natively executed one-liners judged by spec/Surface.tla -> (violations, number of cases)"""
+    import equiv
+    fam = surface_family()
+    lp = os.path.join(work, "surface.json")
+    json.dump([{"name": n, "kind": "fun", "src": src} for n, src, _, _ in fam], open(lp, "w"))
+    art = os.path.join(work, "surf-art")
+    sccv("pipeline", lp, art, "x86")
+    idx = {c["name"]: c for c in json.load(open(os.path.join(art, "index.json")))}
+    jobs = []
+    for n, src, tl, chunk in fam:
+        if not os.path.exists(os.path.join(art, n + ".x86.asm")):
+            raise ToolError("surface family program %s does not compile: %s" % (n, [s_ for s_ in idx[n]["stages"] if s_["outcome"] != "ok"][:1]))
+        jobs.append((n, open(os.path.join(art, n + ".x86.asm")).read(), 2, tl))
+    res = nat.build_and_run(jobs)
+    cases, viols = [], []
+    for n, src, tl, chunk in fam:
+        for a in tl:
+            run = res[n]["runs"].get(",".join(map(str, a)))
+            lines = run["stdout"].split("\n")[:-1] if run and run["ran"] else []
+            if not run or not run["ran"] or run["status"] != 0 or len(lines) != len(chunk):
+                rp = save_replay("C01", "surface-%s" % n, {"program": n, "source": src, "argv": a, "native": run})
+                viols.append({"signature": "C01:surface:run", "replay": rp, "what": "%s@%s: the executable did not print one line per expression and exit with 0" % (n, a)})
+                continue
+            env = {"n": a[0], "m": a[1]}
+            for (op, l, r, text), line in zip(chunk, lines):
+                cases.append({"name": "%s@%s:%s" % (n, ",".join(map(str, a)), text), "op": op, "a": equiv.limbs(env.get(l, l)), "b": equiv.limbs(env.get(r, r)),
+                              "observed": equiv.limbs(int(line)), "text": "`%s` with n = %d, m = %d (printed %s)" % (text, a[0], a[1], line)})
+    wd = os.path.join(work, "surface-tlc")
+    os.makedirs(wd, exist_ok=True)
+    cp = os.path.join(wd, "cases.json")
+    json.dump(cases, open(cp, "w"))
+    r = tlc_batch("Surface", "Surface.cfg", wd, {"SCCV_CASES": cp}, len(cases), timeout=900)
+    for x in r["results"]:
+        if x["status"] == "fail":
+            form = x["case"].split(":", 1)[1]
+            rp = save_replay("C01", "surface-" + re.sub(r"\W+", "_", x["case"])[:80], x)
+            viols.append({"signature": "C01:surface:%s" % lockstep.normalize_why(form), "replay": rp, "what": x["why"]})
+    shutil.rmtree(art, ignore_errors=True)
+    return viols, len(cases), r
 
 
 def re_sub_line(l):
@@ -1248,6 +1327,38 @@ def check_C18(tier):
         nm = "file_" + os.path.basename(x["path"])
         traces.append({"name": nm, "kind": "stages", "events": [{"stage": "parse", "class": cls, "msg": x["msg"][:160]}], "facts": {"nargs": 0, "maxctx": 0, "hasprint": False}})
         srcof[nm] = repr(blobs[os.path.basename(x["path"])])
+    # ---- the real command-line tool: diagnostics are rendered (miette) only there.  Every rejected input of the batch above
+    # (a sample of the token mutants) is given to `scc check` as a file: exit status 0 or 1, never a panic / signal
+    import subprocess, concurrent.futures
+    b = subprocess.run(["cargo", "build", "--offline"], cwd=REPO, stdout=subprocess.PIPE, stderr=subprocess.STDOUT, text=True)
+    scc = os.path.join(REPO, "target", "debug", "scc")
+    if b.returncode != 0 or not os.path.exists(scc):
+        raise ToolError("cannot build the scc binary: " + b.stdout[-800:])
+    cdir = os.path.join(work, "cli")
+    os.makedirs(cdir, exist_ok=True)
+    rejected = [n for n, e in index.items() if not any(s_["stage"] == "check" and s_["outcome"] == "ok" for s_ in e["stages"])]
+    toks = [n for n in rejected if n.startswith("tok")]
+    cli_names = [n for n in rejected if not n.startswith("tok")] + rng.sample(toks, min(len(toks), T(tier, 400, 5000)))
+
+    def cli1(n):
+        fp_ = os.path.join(cdir, n + ".sc")
+        open(fp_, "w").write(srcof[n])
+        try:
+            pr = subprocess.run([scc, "check", fp_], stdout=subprocess.PIPE, stderr=subprocess.PIPE, timeout=60, cwd=cdir)
+        except subprocess.TimeoutExpired:
+            return n, "panic", "scc check did not terminate within 60 s"
+        finally:
+            os.remove(fp_)
+        err = pr.stderr.decode("utf-8", "replace")
+        if pr.returncode in (0, 1) and "panicked at" not in err:
+            return n, ("ok" if pr.returncode == 0 else "parse_error"), ""
+        m_ = re.search(r"panicked at [^\n]*\n?([^\n]*)", err)
+        return n, "panic", ("scc check: exit status %d; %s" % (pr.returncode, (m_.group(0) if m_ else err[-200:]).replace("\n", " ")))[:200]
+    with concurrent.futures.ThreadPoolExecutor(max_workers=12) as ex:
+        for n, cls, msg in ex.map(cli1, cli_names):
+            nm = "cli_" + n
+            traces.append({"name": nm, "kind": "stages", "events": [{"stage": "parse", "class": cls, "msg": msg}], "facts": {"nargs": 0, "maxctx": 0, "hasprint": False}})
+            srcof[nm] = srcof[n]
     rr = stages.run_stage_traces(work, traces)
     viols, stats = [], collections.Counter()
     for x in rr["results"]:
@@ -1267,7 +1378,8 @@ def check_C18(tier):
                    {"evaluations": len(traces), "distinct_nontrivial": len(set(srcof.values())),
                     "rule": "all single (thorough: windowed double) token mutations of 3 base programs enumerated by TLC from spec/Mutate.tla; "
                             "random byte-level edits of valid programs; single ill-typed edits of generated well-typed programs (the edit classes of C15); "
-                            "extreme shapes; files with invalid UTF-8 through Driver::checked; "
+                            "extreme shapes; the rejected inputs again through the real `scc check` binary (rendered diagnostics: exit status 0/1, "
+                            "no panic); files with invalid UTF-8 through Driver::checked; "
                             "every replay's stage-event trace validated by spec/TracePipeline.tla (a panic is in no alphabet); accepted "
                             "programs with a valid main continue through all three backends; distinct = distinct input texts",
                     "samples": [srcof["tok5"], srcof["byte3"], "x_deep_paren (300 levels)"], "accepted_by_checker": accepted,
